@@ -22,6 +22,7 @@ ASSUMPTIONS = ["the fault plan counts user-code entries of the chosen definition
 FLOORS = {"captured_throws": {"quick": 300, "thorough": 5000}, "later_activations_checked": {"quick": 400, "thorough": 6000},
           "outside_cone_runs_compared": {"quick": 5000, "thorough": 80000}, "try_except_cases": {"quick": 100, "thorough": 1500},
           "thrower_not_first_in_child": {"quick": 40, "thorough": 600}, "map_key_throws": {"quick": 150, "thorough": 2500},
+          "captured_throw_with_pending_timer": {"quick": 5, "thorough": 100},
           "map_other_key_runs_compared": {"quick": 2000, "thorough": 30000}, "map_error_ticks_checked": {"quick": 150, "thorough": 2500}}
 BATCH = 30
 
@@ -32,11 +33,20 @@ def gen_pair(rng, name):
     uid = 1 + max([s.uid() or 0 for g in base.graphs.values() for s in g] + [0])
     main = base.graphs["main"]
     if how == "node":
-        cands = [st for st in main if st.op in ("pass", "add2", "add3", "acc", "count", "sample", "halfgate", "thrower") and st.dst]
+        cands = [st for st in main if st.op in ("pass", "add2", "add3", "acc", "count", "sample", "halfgate", "thrower", "delay") and st.dst]
+        timers = [st for st in cands if st.op == "delay"]
+        srcs = [st.dst for st in main if st.op in ("src", "ticker") and st.dst]
+        if srcs and rng.random() < 0.6:
+            # a dedicated timer node on a source: input ticks arrive while an earlier wake-up is still pending
+            main.append(S("tm_", "delay", rng.choice(srcs), uid=uid, k=rng.choice([2, 3, 5, 6])))
+            timers = [main[-1]] * 3
+            cands.append(main[-1])
+            uid += 1
         if not cands:
             return None
-        x = rng.choice(cands)
-        main.append(S("e_", "err", x.dst))
+        # timer nodes are preferred: a captured throw in an input-driven evaluation must leave the pending wake-up alone
+        x = rng.choice(timers) if timers and rng.random() < 0.6 else rng.choice(cands)
+        main.append(S("e_", "err", x.dst, depth=rng.choice([0, 1, 1, 2, 4]), values=rng.choice([0, 0, 1])))
         main.append(S("", "recerr", "e_", uid=uid))
         main.append(S("", "rec", x.dst, uid=uid + 1))
         thrower = x.uid()
@@ -467,11 +477,43 @@ def check(case, tr):
             a, b = ok_evals.get(u, []), evals.get(u, [])
             diff = next((x for x in zip(a, b) if x[0] != x[1]), (a[len(b):len(b) + 1], b[len(a):len(a) + 1]))
             V.append(Violation(f"uid {u} does not depend on the failing node but its runs differ from the fault-free run: {diff}"))
+    # 2b. single captured node: the whole run equals the reference model in which exactly the planned evaluations are abandoned
+    #     (no output, no state change, no new requests - pending wake-ups stay pending)
+    model_runs = pending_timer = 0
+    if case.meta["how"] == "node":
+        from .c03 import compare_runs, classify_with_emulations
+        mr = M.simulate(flat, captured={thrower})
+        mism = compare_runs(case, run, mr)
+        if mism:
+            def cmp2(c, r, m):
+                return compare_runs(c, r, m)
+            found = None
+            for flags in ({"emulate_sampled_start": True}, {"emulate_stale": True}, {"emulate_sampled_start": True, "emulate_stale": True}):
+                mr2 = M.simulate(flat, captured={thrower}, **flags)
+                if (mr2.stale or mr2.sampled or mr2.stale_armed) and not compare_runs(case, run, mr2):
+                    found = mr2
+                    break
+            if found is None:
+                V.append(Violation("run with a captured fault differs from the model that abandons exactly the throwing evaluations: "
+                                   + "; ".join(mism[:3])))
+            else:
+                mr = found
+                if found.sampled:
+                    V.append(Violation(f"all-Unchecked node ran at child start on an unset boundary source: {found.sampled[:3]}",
+                                       "nested-start-samples-unset-source"))
+                if found.stale or found.stale_armed:
+                    V.append(Violation(f"user code ran at a cancelled wake-up time: {found.stale[:3]} {found.stale_armed[:3]}",
+                                       "cancelled-wakeup-still-evaluates"))
+        model_runs = len(mr.runs)
+        pending_timer = mr.stats.get("captured_throw_with_pending_timer", 0)
     # 3. the thrower is activated in exactly the same cycles as in the fault-free run
     ok_act = sorted(t for t, _, _ in ok_evals.get(thrower, []))
     act = sorted([t for t, _, _ in evals.get(thrower, [])] + [t for _, t, _ in th])
     later = 0
-    if not any(k in cone for k in anc):      # feedback loop through the thrower: activations legitimately change
+    is_timer = any(i.op in M.SCHEDULER_OPS for i in th_insts)
+    if is_timer:
+        later = sum(1 for t in act if throw_cycles and t > throw_cycles[0])     # decided by the model oracle above
+    elif not any(k in cone for k in anc):      # feedback loop through the thrower: activations legitimately change
         later = sum(1 for t in ok_act if throw_cycles and t > throw_cycles[0])
         if ok_act != act:
             missing = [t for t in ok_act if t not in act]
@@ -529,7 +571,8 @@ def check(case, tr):
         body = case.graphs[case.meta["sub"]]
         first_in_child = 0 if any(any(p[0] == "try" for p in flat.insts[k].path) for k in anc) else 1
     res.counters = {"captured_throws": len(th), "later_activations_checked": later, "outside_cone_runs_compared": outside,
-                    "independent_child_nodes_checked": unrelated_checked,
+                    "independent_child_nodes_checked": unrelated_checked, "model_runs_compared": model_runs,
+                    "captured_throw_with_pending_timer": pending_timer,
                     "try_except_cases": 1 if case.meta["how"] == "try" and th else 0,
                     "thrower_not_first_in_child": 1 if case.meta["how"] == "try" and th and not first_in_child else 0}
     res.nontrivial = bool(th) and later >= 1
